@@ -122,6 +122,33 @@ def check_config(ctx, sc, tag, cfg, write_log, subsets_budget):
         return
     if any("x" in m for n, m in opens0):
         out.oracle_fail("baseline", dict(base, opens=opens0), "a file was opened with exclusive mode under --clobber")
+    # history: a second run IN THE SAME PROCESS and the same directory, where the pre-existing files are the ones the first run
+    # wrote (state carried from one invocation to the next must not matter): --no-clobber with everything present, then with the log
+    # file removed (so that the collision is found by get_output_filehandle, not by setup_logging), then without --write-log
+    for variant in ("all-present", "log-removed", "no-write-log"):
+        before = outputs_of(d0, cfg)
+        if variant == "log-removed":
+            for x in list(before):
+                if x.endswith(".log"):
+                    (d0 / x).unlink(); before.pop(x)
+        wl = write_log and variant != "no-write-log"
+        res, opens = run_cli(d0, cfg, False, wl)
+        after = outputs_of(d0, cfg)
+        inp = dict(base, history=["--clobber run", f"--no-clobber run in the same process and directory ({variant})"], preexisting=sorted(before))
+        out.case("history", inp, ("history", base["format"], write_log, variant))
+        if res.exit_code == 0:
+            out.oracle_fail("history", inp, "second run succeeded although its output files already existed")
+        for x in sorted(before):
+            if x.endswith(".log") and variant != "log-removed" and not wl:
+                pass
+            if after.get(x) != before[x]:
+                what = "was DELETED" if x not in after else "was altered"
+                out.oracle_fail("history", inp, f"pre-existing file {x} {what} by a --no-clobber run")
+                break
+        # restore what the variant removed / what a faulty run destroyed, for the next variant
+        for x, b in O.items():
+            if not (d0 / x).exists():
+                (d0 / x).write_bytes(b)
     # subsets
     n = len(names)
     subsets = [[x] for x in names] + [list(names)]
